@@ -91,8 +91,8 @@ package participle
 
 // printTrace only writes the trace stream and ctx.depth, which no contract mentions (C15: tracing cannot
 // influence the result). The closure it returns restores depth.
-//@ func (*parseContext).printTrace
-//@   trusted
+//@ func (*parseContext).printTrace [C15 C06]
+//@   requires pcInv(p) && n != nil
 //@   modifies p.depth
 
 // wf(n): the grammar node n is well-formed: every child slot is non-nil and well-formed. The node graph is
@@ -197,9 +197,38 @@ package participle
 
 // setField writes the captured values into the struct through reflection (C17); it does not touch the
 // parse context. Its own obligations are under "conform"/"setField" below.
-//@ func setField
-//@   trusted
-//@   ensures result != nil ==> implements(result, Error)
+//@ func allStrings [C06]
+//@   pure
+//@   loop 1 invariant -1 <= rangeindex && rangeindex < len(values)
+//@   loop 1 decreases len(values) - rangeindex
+
+// setField: what is proved here is panic-freedom of its own index expressions and the error shape; the
+// reflection calls are opaque (their own panics, e.g. Set on mismatched types, are outside this framework).
+//@ func setField [C17 C06]
+//@   ensures result != nil ==> implements(result, Error) [C06]
+//@   allow-kind typeassert "type assertions on values obtained through reflection (guarded by reflect Implements checks)"
+//@   assume call reflect.Type.Implements#1: arg0 != nil
+//@   assume call reflect.Type.Implements#2: arg0 != nil
+//@   assume call reflect.Type.Kind#1: arg0 != nil
+//@   assume call reflect.Type.Kind#2: arg0 != nil
+//@   loop 1 invariant -1 <= rangeindex && rangeindex < len(fieldValue)
+//@   loop 1 decreases len(fieldValue) - rangeindex
+//@   loop 2 invariant -1 <= rangeindex && rangeindex < len(fieldValue)
+//@   loop 2 decreases len(fieldValue) - rangeindex
+//@   loop 3 invariant -1 <= rangeindex && rangeindex < len(fieldValue)
+//@   loop 3 decreases len(fieldValue) - rangeindex
+//@   loop 4 invariant -1 <= rangeindex && rangeindex < len(fieldValue)
+//@   loop 4 decreases len(fieldValue) - rangeindex
+//@   loop 5 invariant -1 <= rangeindex && rangeindex < len(fieldValue)
+//@   loop 5 invariant len(out) == rangeindex + 1 && forall(k, 0, rangeindex + 1, out[k] == uf("fn__reflect.Value_.String_r0", "Str", fieldValue[k]))
+//@   loop 5 decreases len(fieldValue) - rangeindex
+//@   before call strings.Join#1: assert sep == "" && len(elems) == len(fieldValue) && forall(k, 0, len(fieldValue), elems[k] == uf("fn__reflect.Value_.String_r0", "Str", fieldValue[k])) [C17]
+//@   before call participle.Wrapf#1: assert len(tokens) > 0 ==> pos == tokens[0].Pos [C17]
+//@   before call participle.Wrapf#2: assert len(tokens) > 0 ==> pos == tokens[0].Pos [C17]
+//@   before call participle.Wrapf#3: assert len(tokens) > 0 ==> pos == tokens[0].Pos [C17]
+//@   before call participle.Wrapf#4: assert len(tokens) > 0 ==> pos == tokens[0].Pos [C17]
+//@   before call participle.Wrapf#5: assert len(tokens) > 0 ==> pos == tokens[0].Pos [C17]
+//@   before call participle.Wrapf#6: assert len(tokens) > 0 ==> pos == tokens[0].Pos [C17]
 
 // Apply(from): applies exactly the captures deferred since the list held `from` entries, in order, and drops
 // them; earlier entries (deferred by enclosing productions) are kept untouched.
